@@ -84,6 +84,12 @@ pub fn std_sweep(tier: Tier, flavor: Flavor) -> Vec<Part> {
         family: gen::es_d(tier.pick(24, 64), &SIGMA8, tier.pick(2, 3)),
         cfgs: gen::cfgs(&mq, &[d, a], &on, &off),
     });
+    // ES-I
+    parts.push(Part {
+        name: "ES-I multi-run inputs",
+        family: gen::es_i(tier.pick(14, 24), tier.pick(5, 7)),
+        cfgs: gen::cfgs(&[ALL_MODES, NO_ASCII], &[d, a], &on, &off),
+    });
     // ES-E
     let mut ce = gen::cfgs(&[ALL_MODES], &[d, a], &on, &off);
     ce.extend(gen::cfgs(&[0x21, NO_ASCII], &[d], &on, &off));
